@@ -18,9 +18,9 @@ type SVal struct {
 }
 
 type Env struct {
-	quantified bool // inside a quantifier: bound variables must not leak into side facts
+	quantified bool    // inside a quantifier: bound variables must not leak into side facts
 	collect    *[]Term // when set, reachability facts about quantified objects are collected here instead of being asserted
-	noLabels   bool // label-dependent builtins are not available (contract applied at a call site)
+	noLabels   bool    // label-dependent builtins are not available (contract applied at a call site)
 	s          *State
 	vars       map[string]SVal
 	heap       map[string]Term
